@@ -9,6 +9,15 @@
      op.ClientJWTAuth             -> [client_jwt_auth]
      op.AuthorizePrivateJWTKey    -> [authorize_private_jwt_key]
      op.JWTProfile (up to storage.ValidateJWTProfileScopes) -> [jwt_profile_grant]
+     Provider router, client authentication of a request that carries a client_assertion
+       (op.ClientIDFromRequest -> ClientJWTAuth, then storage.GetClientByClientID)
+                                  -> [provider_router_auth]
+     LegacyServer router (webServer.verifyRequestClient -> LegacyServer.VerifyClient with
+       client_assertion_type jwt-bearer) -> [authorize_private_jwt_key]; a client_id form
+       parameter sent along is not consulted on either router.
+     One verifier / provider instance serving a sequence of requests -> [verify_sequence]:
+       the verifier carries no state, every step is [verify_assertion] on that step alone;
+       the expected audience is the issuer of THAT request ([v_issuer] per step).
    Times: [now], offsets and max age in ns (Z); claim times in whole seconds, 0 = absent. *)
 From OIDC Require Import Lib C14_Sig.
 
@@ -101,4 +110,20 @@ Section Assertion.
     | Ok c => Ok (c_iss c)
     | Err e => Err e
     end.
+  (* Provider router: the assertion alone names the client (no auth-method check there) *)
+  Definition provider_router_auth (v : vcfg) (t : keytable) (cl : clienttable) (now : Z)
+      (tok : token claims) : res string :=
+    match client_jwt_auth v t now tok with
+    | Err e => Err e
+    | Ok id => match lookup_client cl id with
+               | None => Err ENoClient
+               | Some _ => Ok id
+               end
+    end.
+
+  (* a sequence of requests served by ONE verifier / provider: (request issuer and config,
+     clock, assertion) per step *)
+  Definition verify_sequence (t : keytable) (steps : list (vcfg * Z * token claims))
+      : list (res claims) :=
+    map (fun s => verify_assertion (fst (fst s)) t (snd (fst s)) (snd s)) steps.
 End Assertion.
